@@ -39,6 +39,7 @@ pub fn truth(fam: &Family) -> (Vec<f64>, Vec<f64>) {
         Family::GaussDecayOff => (vec![2.0, 0.625, 1.5], vec![1.25, 2.0, 0.5]),
         Family::OLeary => (vec![1.0, 2.5, 4.0], vec![6.0, 1.0]),
         Family::ExpN(n) => ((0..*n).map(|j| 0.5 * 2.5f64.powi(j as i32)).collect(), (0..*n).map(|j| 1.0 + 0.5 * j as f64).collect()),
+        Family::Perm4 => (vec![0.5, 2.0, 0.3, 0.2], vec![2.0, 1.0, 0.5]),
         Family::PolyMat(s) => (vec![0.5; s.p], (0..s.m).map(|j| 1.0 + j as f64).collect()),
         Family::GenProd { m, p, .. } => (vec![0.75, 0.625, 1.25][..*p].to_vec(), vec![1.0, -0.75, 0.5][..*m].to_vec()),
     }
@@ -49,6 +50,7 @@ pub fn xgrid(fam: &Family, n: usize) -> Vec<f64> {
         Family::Exp1Off | Family::Exp2Off | Family::Exp3 | Family::ExpN(_) => linspace(0.0, 6.0, n),
         Family::GaussDecayOff => linspace(0.0, 5.0, n),
         Family::OLeary => linspace(0.0, 1.5, n),
+        Family::Perm4 => linspace(0.0, 3.0, n),
         Family::PolyMat(s) => (0..s.n).map(|i| i as f64).collect(),
         Family::GenProd { .. } => linspace(0.125, 2.0, n),
     }
@@ -93,6 +95,8 @@ pub enum WKind {
     ZeroAt(usize),
     /// ramp with weight i == pos negated
     NegAt(usize),
+    /// ramp weights at k evenly spread samples (first and last included), exact zeros everywhere else
+    KeepOnly(usize),
 }
 impl WKind {
     pub fn name(&self) -> String {
@@ -112,6 +116,47 @@ impl WKind {
             WKind::Spread => Some((0..n).map(|i| 10f64.powf(-3.0 + 6.0 * (((i * 7) % n) as f64) / ((n.max(2) - 1) as f64))).collect()),
             WKind::ZeroAt(p) => Some((0..n).map(|i| if i == *p % n { 0.0 } else { ramp(i) }).collect()),
             WKind::NegAt(p) => Some((0..n).map(|i| if i == *p % n { -ramp(i) } else { ramp(i) }).collect()),
+            WKind::KeepOnly(k) => {
+                let k = (*k).clamp(1, n);
+                let keep: Vec<usize> = (0..k).map(|j| if k == 1 { 0 } else { j * (n - 1) / (k - 1) }).collect();
+                Some((0..n).map(|i| if keep.contains(&i) { ramp(i) } else { 0.0 }).collect())
+            }
+        }
+    }
+    /// replayable description (one place for every engine)
+    pub fn to_json(&self) -> serde_json::Value {
+        use serde_json::json;
+        match self {
+            WKind::ZeroAt(p) => json!({"ZeroAt": p}),
+            WKind::NegAt(p) => json!({"NegAt": p}),
+            WKind::KeepOnly(p) => json!({"KeepOnly": p}),
+            o => json!(format!("{:?}", o)),
+        }
+    }
+    pub fn from_json(v: &serde_json::Value) -> WKind {
+        for (k, f) in [("ZeroAt", WKind::ZeroAt as fn(usize) -> WKind), ("NegAt", WKind::NegAt), ("KeepOnly", WKind::KeepOnly)] {
+            if let Some(p) = v.get(k) {
+                return f(p.as_u64().unwrap() as usize);
+            }
+        }
+        let s = v.as_str().expect("weight kind");
+        // also the Debug form "ZeroAt(2)"
+        for (k, f) in [("ZeroAt(", WKind::ZeroAt as fn(usize) -> WKind), ("NegAt(", WKind::NegAt), ("KeepOnly(", WKind::KeepOnly)] {
+            if let Some(r) = s.strip_prefix(k) {
+                return f(r.trim_end_matches(')').parse().unwrap());
+            }
+        }
+        match s {
+            "None" => WKind::None,
+            "Ones" => WKind::Ones,
+            "Threes" => WKind::Threes,
+            "Dyadic" => WKind::Dyadic,
+            "Ramp" => WKind::Ramp,
+            "InvSigma" => WKind::InvSigma,
+            "Tiny" => WKind::Tiny,
+            "Huge" => WKind::Huge,
+            "Spread" => WKind::Spread,
+            o => panic!("wkind {}", o),
         }
     }
 }
